@@ -2,6 +2,7 @@
    Sched/NodeCapLemmas.v, Sched/NodeCapLemmasCycle.v, Sched/NodeCapCheck.v, C02/BindLemmas.v. *)
 From stdpp Require Import gmap.
 From Coq Require Import ZArith.
+From V Require Import Sched.LedgerCodec.
 From V Require Import Base.Res Sched.LedgerModel Sched.StmtModel Sched.GangModel Sched.CycleModel Sched.LedgerInvP
                       Sched.NodeCapLemmas Sched.NodeCapLemmasCycle Sched.NodeCapCheck Sched.NodeCapLemmasEvict Sched.NodeCapEvictEx
                       Sched.NodeSumLemmas Sched.NodeSumCheck Sched.NodeCapSelectVictims C02.BindModel C02.BindLemmas C02.BindEx.
@@ -117,6 +118,13 @@ Theorem C02_sums_within_allocatable_grid : forall eps g n d,
 Proof. exact sums_within_allocatable_grid. Qed.
 Print Assumptions C02_sums_within_allocatable_grid.
 
+(* base case: the constructor of initial sessions establishes the accounting invariant *)
+Theorem C02_build_nodes_acct : forall eps ns js ts,
+  (forall t, t ∈ ts -> 0 <= ts_cpu t /\ 0 <= ts_mem t /\ 0 <= ts_gpu t) ->
+  nodes_acct (nodes (build eps ns js ts)).
+Proof. exact build_nodes_acct. Qed.
+Print Assumptions C02_build_nodes_acct.
+
 (* the executable accounting check used by law 113 is sound *)
 Theorem C02_nodes_acct_b_sound : forall ns, nodes_acct_b ns = true -> nodes_acct ns.
 Proof. exact nodes_acct_b_sound. Qed.
@@ -146,6 +154,13 @@ Theorem C02_bind_admission_safe : forall eps, 0 < eps -> forall c l k,
   nodes_all (idle_ok eps) (c_nodes (bind_state eps c (take k l))).
 Proof. exact bind_admission_safe. Qed.
 Print Assumptions C02_bind_admission_safe.
+
+(* the same over every dimension, 'pods' included (binds only) *)
+Theorem C02_bind_admission_all_dims : forall eps, 0 < eps -> forall c l k,
+  nodes_all (idle_all_ok eps) (c_nodes c) ->
+  nodes_all (idle_all_ok eps) (c_nodes (bind_state eps c (take k l))).
+Proof. exact bind_admission_all_dims. Qed.
+Print Assumptions C02_bind_admission_all_dims.
 
 Theorem C02_bind_admission_safe_full : forall eps, 0 < eps -> forall c l k,
   nodes_all (cache_node_ok eps) (c_nodes c) ->
@@ -235,6 +250,24 @@ Theorem C02_agent_events_safe : forall eps, 0 < eps -> forall tasks l ns k,
   nodes_all (bnode_ok eps) (fold_left (agent_step eps tasks) (take k l) ns).
 Proof. exact agent_events_safe. Qed.
 Print Assumptions C02_agent_events_safe.
+
+(* the executable form of cinv used by law 115 is sound *)
+Theorem C02_cinv_b_sound : forall eps c, 0 < eps -> cinv_b eps c = true -> cinv eps c.
+Proof. exact cinv_b_sound. Qed.
+Print Assumptions C02_cinv_b_sound.
+
+(* agent scheduler cache: RemoveNode + re-add forgets what the node held (known finding
+   C02-agent-remove-node-forgets-held-tasks, reproduced on the real agent cache): agent_events_safe
+   speaks about the copies the cache holds, which after this history are fewer than what is placed *)
+Theorem C02_agent_remove_readd_forgets_refuted :
+  map fst (map_to_list (n_tasks (bx_node bx_cache))) = [1%positive] /\
+  match ag_final !! 1%positive with
+  | Some n => (map fst (map_to_list (n_tasks n)), csum (used_amt DCpu) (n_tasks n), nwc_b 2 n)
+  | None => ([], 0, false)
+  end = ([2%positive], 32000, true) /\
+  amt (t_req ag_t2) DCpu + csum (used_amt DCpu) (n_tasks (bx_node bx_cache)) = 64000 /\ amt bx_alloc DCpu = 48000.
+Proof. exact agent_remove_readd_forgets_refuted. Qed.
+Print Assumptions C02_agent_remove_readd_forgets_refuted.
 
 (* a target without Node object is refused and nothing is touched (after fix 8dab8c3) *)
 Theorem C02_bind_needs_node_object : forall eps c r n,
